@@ -290,6 +290,9 @@ def hexStr (x : Bytes) : List Nat := x.flatMap fun b => [hexDigit (b.toNat / 16)
 /-- `bytes(n)`: `n` zero bytes, ValueError for a negative `n` -/
 def zerosE (n : Int) : Except Err Bytes := if n < 0 then .error .value else .ok (List.replicate n.toNat 0)
 
+/-- `s.add(x)` on a set kept as a list without duplicates (a set is only ever asked `in`) -/
+def setAdd {α : Type} [DecidableEq α] (s : List α) (x : α) : List α := if x ∈ s then s else s ++ [x]
+
 /-- `bytearray.append(v)`: ValueError unless `v` is in range(256) -/
 def appendByteE (x : Bytes) (v : Int) : Except Err Bytes :=
   if v < 0 ∨ v ≥ 256 then .error .value else .ok (x ++ [UInt8.ofNat v.toNat])
